@@ -119,18 +119,18 @@ def path_jobs(paths, prefix, battery):
     return jobs
 
 
-def describe_failure(tr, v):
-    ev = traces.failing_event(tr, v)
-    step = v["err"]["step"]
+def describe_failure(tr, err):
+    ev = traces.failing_event(tr, err)
+    step = err["step"]
     return ("%s storage, auto_index=%d, after %d call(s): %s -> clause '%s' fails; logged exc=%r res=%s; spec expected %s"
-            % (tr["kind"], tr["auto_index"], step - 1, json.dumps(ev["a"])[:400], v["err"]["clause"], ev["exc"],
-               json.dumps(ev["res"])[:200], json.dumps(v["err"]["expected"])[:300]))
+            % (tr["kind"], tr["auto_index"], step - 1, json.dumps(ev["a"])[:400], err["clause"], ev["exc"],
+               json.dumps(ev["res"])[:200], json.dumps(err["expected"])[:300]))
 
 
-def failure_tags(tr, v):
-    ev = traces.failing_event(tr, v)
+def failure_tags(tr, err):
+    ev = traces.failing_event(tr, err)
     a = ev["a"]
-    tags = {"op:" + a["op"], "clause:" + v["err"]["clause"], "kind:" + tr["kind"], "ai:%d" % tr["auto_index"]}
+    tags = {"op:" + a["op"], "clause:" + err["clause"], "kind:" + tr["kind"], "ai:%d" % tr["auto_index"]}
     if a.get("via") == "handle":
         tags.add("via:handle")
     if "q" in a:
@@ -164,22 +164,23 @@ def run(pid, level="model_checking"):
     recorded = traces.record_all(jobs)
     verdicts, js = traces.judge(recorded)
     byid = {t["id"]: t for t in recorded}
+    job_battery = {j[0]: j[4] for j in jobs}
     cut = {}
     n_events = sum(len(t["events"]) for t in recorded)
     for tid, v in verdicts.items():
-        if v["ok"]:
-            continue
         tr = byid[tid]
-        ev = traces.failing_event(tr, v)
-        own = traces.owner(ev["a"], v["err"]["clause"], ev["exc"])
-        if own != pid:
-            cut[own] = cut.get(own, 0) + 1
-            continue
-        step = v["err"]["step"]
-        rep.violation(describe_failure(tr, v),
-                      {"kind": tr["kind"], "auto_index": tr["auto_index"], "ops": [e["a"] for e in tr["events"][:step]],
-                       "battery": [], "clause": v["err"]["clause"], "expected": v["err"]["expected"]},
-                      tags=failure_tags(tr, v))
+        for err in traces.errors(v):
+            ev = traces.failing_event(tr, err)
+            own = traces.owner(ev["a"], err["clause"], ev["exc"])
+            if own != pid:
+                cut[own] = cut.get(own, 0) + 1
+                continue
+            step = err["step"]
+            rep.violation(describe_failure(tr, err),
+                          {"kind": tr["kind"], "auto_index": tr["auto_index"], "ops": [e["a"] for e in tr["events"][:step]],
+                           "battery": job_battery.get(tid, []), "clause": err["clause"], "expected": err["expected"]},
+                          tags=failure_tags(tr, err))
+            break                     # one report per trace: its first failure owned by this property
     ok = sum(1 for v in verdicts.values() if v["ok"])
     rep.coverage = {
         "states": st + js["states"] + rp.distinct,
@@ -194,7 +195,7 @@ def run(pid, level="model_checking"):
         "samples": [{"config": "%s/auto_index=%d" % (t["kind"], t["auto_index"]), "ops": [e["a"]["op"] for e in t["events"]][:30]}
                     for t in recorded[:: max(1, len(recorded) // 3)][:3]],
         "traces_accepted": ok,
-        "traces_cut_by_other_property": cut,
+        "failures_owned_by_other_properties": cut,
         "tlc_paths": len(paths), "tlc_simulated": len(sims), "random_histories": n_rand, "events_judged": n_events,
         "design_states": st, "design_transitions": tr_, "checker_cmd": cmd,
     }
@@ -215,5 +216,6 @@ def replay(repj):
     if vv["ok"]:
         print("replay: trace accepted by the specification (%d steps)" % vv["steps"])
         return 0
-    print("replay: " + describe_failure(rec[0], vv))
+    for err in traces.errors(vv):
+        print("replay: " + describe_failure(rec[0], err))
     return 1
